@@ -401,6 +401,73 @@ impl Property for C10 {
                 obs.label("caller-default-namespace");
             }
         }
+        // A declaration set through the DOM on an element (that carries it already, or not) is what the element
+        // declares from then on: the edited document and a parse of its serialisation agree on every element's in-scope
+        // namespaces and expanded name, and the edited element has the new binding exactly once.
+        {
+            use xml_dom::ElementMut;
+            let element_at = |d: &xml_dom::XmlDocument, path: &[usize]| -> Option<xml_dom::XmlElement> {
+                let mut cur: XmlNode = XmlNode::Element(d.document_element().ok()?);
+                for step in path.iter().skip(1) {
+                    let kids: Vec<XmlNode> = cur.child_nodes().iter().filter(|k| matches!(k, XmlNode::Element(_))).collect();
+                    cur = kids.get(step - 1)?.clone();
+                }
+                match cur {
+                    XmlNode::Element(e) => Some(e),
+                    _ => None,
+                }
+            };
+            let paths: Vec<Vec<usize>> = facts.iter().map(|f| f["path"].as_array().map(|a| a.iter().filter_map(|x| x.as_u64().map(|v| v as usize)).collect()).unwrap_or_default()).collect();
+            let scope_of = |e: &xml_dom::XmlElement| -> Option<Vec<(String, String)>> {
+                let mut v: Vec<(String, String)> = e.in_scope_namespace().ok()?.into_iter().map(|n| (n.node_name(), n.node_value().ok().flatten().unwrap_or_default())).collect();
+                v.sort();
+                Some(v)
+            };
+            // the element in the middle of the list, and a prefix it has in scope (or a new one)
+            if let Some(fi) = facts.get(facts.len() / 2) {
+                let path = &paths[facts.len() / 2];
+                let prefixes: Vec<String> = fi["scope"].as_object().map(|m| m.keys().filter(|k| *k != "xml" && *k != "xmlns").cloned().collect()).unwrap_or_default();
+                let (attr, new_uri) = match prefixes.get(text.len() % (prefixes.len() + 1)) {
+                    Some(p) => (format!("xmlns:{}", p), "urn:re-declared"),
+                    None => ("xmlns:fresh".to_string(), "urn:re-declared"),
+                };
+                if let Some(el) = element_at(&doc, path) {
+                    // twice: the second call meets the declaration the first one made
+                    let r1 = el.set_attribute(&attr, "urn:first");
+                    let r2 = el.set_attribute(&attr, new_uri);
+                    if r1.is_ok() && r2.is_ok() {
+                        obs.label("declaration-set-through-the-dom");
+                        let printed = doc.to_string();
+                        let re = match xml_dom::XmlDocument::from_raw(&printed) {
+                            Ok((rest, d)) if rest.is_empty() => d,
+                            _ => fail!("c10.declaration-set-through-the-dom.does-not-reparse".to_string(), format!("after {}=\"urn:first\" and then {}={:?} on element {:?} the document prints as {:?}, which does not parse", attr, attr, new_uri, path, printed)),
+                        };
+                        let want_prefix = attr.trim_start_matches("xmlns:").to_string();
+                        match scope_of(&el) {
+                            Some(sc) => {
+                                let hits: Vec<&(String, String)> = sc.iter().filter(|(p, _)| *p == want_prefix).collect();
+                                if hits.len() != 1 || hits[0].1 != new_uri {
+                                    fail!("c10.declaration-set-through-the-dom.in-scope".to_string(), format!("after {}={:?} on element {:?} its in-scope namespaces are {:?}", attr, new_uri, path, sc));
+                                }
+                            }
+                            None => fail!("c10.declaration-set-through-the-dom.in-scope".to_string(), format!("in_scope_namespace() fails after {}={:?}", attr, new_uri)),
+                        }
+                        for p in &paths {
+                            if let (Some(a), Some(b)) = (element_at(&doc, p), element_at(&re, p)) {
+                                let (sa, sb) = (scope_of(&a), scope_of(&b));
+                                if sa != sb {
+                                    fail!("c10.declaration-set-through-the-dom.in-scope-vs-reparsed".to_string(), format!("element {:?}: in-scope namespaces {:?} in the edited document, {:?} after re-parsing {:?}", p, sa, sb, printed));
+                                }
+                                let (na, nb) = (a.as_expanded_name().ok().flatten().map(|(l, _, u)| (l, u)), b.as_expanded_name().ok().flatten().map(|(l, _, u)| (l, u)));
+                                if na != nb {
+                                    fail!("c10.declaration-set-through-the-dom.expanded-name-vs-reparsed".to_string(), format!("element {:?}: expanded name {:?} in the edited document, {:?} after re-parsing {:?}", p, na, nb, printed));
+                                }
+                            }
+                        }
+                    }
+                }
+            }
+        }
         if !nonzero {
             obs.nontrivial = Some(false);
         }
